@@ -45,6 +45,9 @@ pub struct Cfg {
     /// evaluate the purity check (C15) at every new state
     pub pure_check: bool,
     pub max_states: usize,
+    /// operations executed before the search starts (exploration from a non-initial
+    /// state), encoded as `ins:0:1+sync+...`
+    pub pre: String,
 }
 
 impl Default for Cfg {
@@ -67,6 +70,7 @@ impl Default for Cfg {
             lru: false,
             pure_check: false,
             max_states: 3_000_000,
+            pre: String::new(),
         }
     }
 }
@@ -81,7 +85,7 @@ fn opt<T: std::fmt::Display>(o: &Option<T>) -> String {
 impl Cfg {
     pub fn spec(&self) -> String {
         format!(
-            "kind={},cap={},w={},ttl={},tti={},hash={},tick={},beyond={},autosync={},keys={},Q={},A={},D={},alpha={},lru={},pure={},max={}",
+            "kind={},cap={},w={},ttl={},tti={},hash={},tick={},beyond={},autosync={},keys={},Q={},A={},D={},alpha={},lru={},pure={},max={}{}",
             if self.kind == Kind::U { "U" } else { "S" },
             opt(&self.cap),
             self.weigher as u8,
@@ -98,7 +102,8 @@ impl Cfg {
             self.alpha,
             self.lru as u8,
             self.pure_check as u8,
-            self.max_states
+            self.max_states,
+            if self.pre.is_empty() { String::new() } else { format!(",pre={}", self.pre) }
         )
     }
 
@@ -135,10 +140,24 @@ impl Cfg {
                 "lru" => c.lru = v == "1",
                 "pure" => c.pure_check = v == "1",
                 "max" => c.max_states = v.parse().unwrap(),
+                "pre" => c.pre = v.to_string(),
                 _ => panic!("unknown cfg key {k}"),
             }
         }
         c
+    }
+
+    /// The prefix operations (`pre=`), decoded.
+    pub fn pre_ops(&self) -> Vec<Op> {
+        self.pre
+            .split('+')
+            .filter(|x| !x.is_empty())
+            .map(|x| {
+                let parts: Vec<&str> = x.split(':').collect();
+                let args = parts[1..].join(",");
+                Op::parse(&if args.is_empty() { parts[0].to_string() } else { format!("{}({})", parts[0], args) })
+            })
+            .collect()
     }
 
     pub fn pw(&self, w: u32) -> u32 {
@@ -529,6 +548,9 @@ pub fn alphabet(cfg: &Cfg) -> Vec<Op> {
             per_key(&mut a, Op::Inv, n.min(2));
             if !s {
                 a.push(Op::InvIf(Pred::Keys(0b001)));
+            }
+            if cfg.a > 0 && cfg.has_expiry() {
+                a.push(Op::Adv(1));
             }
         }
         // pointer-sharing situations: re-insert after invalidate, stale rejection,
